@@ -423,11 +423,23 @@ package stack
 // ---- stack.go: merge (C12, C14) -------------------------------------------------
 //@ pred CallKeyKept(k *Call, c *Call) = k.Line == c.Line && k.Func.Complete == c.Func.Complete && k.Func.IsPkgMain == c.Func.IsPkgMain && k.RemoteSrcPath == c.RemoteSrcPath && k.DirSrc == c.DirSrc && k.Location == c.Location && k.SrcName == c.SrcName && k.Func.Name == c.Func.Name && k.Func.ImportPath == c.Func.ImportPath && k.Func.DirName == c.Func.DirName && k.Func.IsExported == c.Func.IsExported && k.LocalSrcPath == c.LocalSrcPath && k.RelSrcPath == c.RelSrcPath && k.ImportPath == c.ImportPath
 
+// What merge builds, leaf by leaf: an argument that is exactly equal on both
+// sides is kept, one that differs becomes the wildcard "*" (keeping the left
+// value and pointer flag); aggregates are merged field-wise. The ordering
+// conjunct (children allocated after their parent) is what lets the verifier
+// frame this recursive predicate across the in-place construction.
+//@ pred PreciseLeaf(k *Arg, a *Arg, r *Arg) = SimLeaf(a, r, ExactFlags) ? (k.Name == a.Name && k.Value == a.Value && k.IsPtr == a.IsPtr && k.IsOffsetTooLarge == a.IsOffsetTooLarge) : (k.Name == "*" && k.Value == a.Value && k.IsPtr == a.IsPtr && !k.IsOffsetTooLarge)
+//@ spec ordered MergedVals(k []Arg, a []Arg, r []Arg) bool = len(k) == len(a) && forall i :: 0 <= i && i < len(k) ==> MergedArg(&k[i], &a[i], &r[i])
+//@ spec MergedArg(k *Arg, a *Arg, r *Arg) bool = k.IsAggregate == a.IsAggregate && (a.IsAggregate ? (k.Fields.Elided == a.Fields.Elided && rootOf(k.Fields.Values) > rootOf(k) && MergedVals(k.Fields.Values, a.Fields.Values, r.Fields.Values)) : PreciseLeaf(k, a, r))
+
 //@ func (*Args).merge
 //@   requires a != nil && r != nil && SimVals(a.Values, r.Values, AnyValue)
 //@   modifies nothing
 //@   ensures [argsMergeShape C12] len(result.Values) == len(a.Values) && result.Elided == a.Elided && fresh(result.Values) && len(result.Processed) == 0
-//@   loop 0: invariant -1 <= rangeindex && rangeindex < len(a.Values) && a != nil && r != nil && fresh(out.Values) && len(out.Values) == len(a.Values) && out.Elided == a.Elided && len(out.Processed) == 0 && len(a.Values) == len(r.Values)
+//@   ensures [argsMergePrecise C12] MergedVals(result.Values, a.Values, r.Values)
+//@   loop 0: invariant -1 <= rangeindex && rangeindex < len(a.Values) && a != nil && r != nil && fresh(out.Values) && live(out.Values) && len(out.Values) == len(a.Values) && out.Elided == a.Elided && len(out.Processed) == 0 && len(a.Values) == len(r.Values)
+//@   loop 0: invariant [mergedSoFar C12] forall j :: 0 <= j && j <= rangeindex ==> MergedArg(&out.Values[j], &a.Values[j], &r.Values[j])
+//@   loop 0: invariant forall j :: rangeindex < j && j < len(out.Values) ==> !out.Values[j].IsOffsetTooLarge && !out.Values[j].IsAggregate
 //@   loop 0: decreases len(a.Values) - rangeindex
 
 //@ func (*Call).merge
